@@ -287,6 +287,13 @@ def check_elementwise(case):
         want = f(x.copy())
         kw = 'transformed'
     check_meta(out, src, case['desc'], case['n_rdm'], case['n_cond'], which if which != 'custom' else 'custom', kw)
+    # 'return RDMs': the object that was transformed still holds its own values (it is evaluated and
+    # transformed again afterwards, e.g. the data RDMs next to their square roots)
+    fresh = np.asarray(build(case['vecs'], case['desc']).dissimilarities, dtype=float)
+    require(np.array_equal(np.asarray(src.dissimilarities, dtype=float), fresh, equal_nan=True),
+            '%s transform changed the RDMs it was given: %s -> %s' % (
+                which, core._short(fresh), core._short(np.asarray(src.dissimilarities, dtype=float))),
+            'source-changed:' + which)
     got = np.asarray(out.dissimilarities, dtype=float)
     require_close(got, want, '%s transform%s' % (which, '' if which != 'custom' else ' ' + case['fun']),
                   'value:' + which, rtol=1e-12, atol=0)
